@@ -624,11 +624,11 @@ Section Fastavro.
 
   Definition w_init : wstate := WState None None WNone true None [] [].
 
-  Inductive wcond := CNoDesc | CDescDiffers | CNoWriter | CHasFp | CHasFpNotStdout.
+  Inductive wcond := CNoDesc | CDescDiffers | CNoWriter | CHasWriter | CHasFp | CHasFpNotStdout.
   Inductive wact :=
   | SetDesc | MakeSchema | ParseSchema | MakeWriter | RaiseMixed | WriterWrite
   | MakeEmptyWriter | WriterFlush | CallFlush | FpClose | SetFpNone | SetWriterNone.
-  Inductive wstmt := Do (a : wact) | When (c : wcond) (body : list wact).
+  Inductive wstmt := Do (a : wact) | When (c : wcond) (body : list wstmt).
   Record wcode := WCode { code_write : list wstmt; code_flush : list wstmt; code_close : list wstmt }.
 
   Inductive wres := WOk (st : wstate) | WRaise (e : werr) (st : wstate).
@@ -652,6 +652,7 @@ Section Fastavro.
                       | _, _ => true
                       end
     | CNoWriter => match w_writer st with WNone => true | _ => false end
+    | CHasWriter => match w_writer st with WNone => false | _ => true end
     | CHasFp => w_fp st
     | CHasFpNotStdout => w_fp st
     end.
@@ -703,20 +704,22 @@ Section Fastavro.
     | SetWriterNone => WOk (set_writer st WNone (w_header st))
     end.
 
-  Fixpoint run_acts (act : wact -> wstate -> wres) (l : list wact) (st : wstate) : wres :=
-    match l with
-    | [] => WOk st
-    | a :: rest => match act a st with WOk st' => run_acts act rest st' | r => r end
+  Fixpoint run_stmt (act : wact -> wstate -> wres) (arg : option record) (s : wstmt) (st : wstate) : wres :=
+    match s with
+    | Do a => act a st
+    | When c body =>
+        if cond_holds c arg st
+        then (fix go (l : list wstmt) (st : wstate) : wres :=
+                match l with
+                | [] => WOk st
+                | x :: rest => match run_stmt act arg x st with WOk st' => go rest st' | r => r end
+                end) body st
+        else WOk st
     end.
-
   Fixpoint run_stmts (act : wact -> wstate -> wres) (arg : option record) (l : list wstmt) (st : wstate) : wres :=
     match l with
     | [] => WOk st
-    | Do a :: rest => match act a st with WOk st' => run_stmts act arg rest st' | r => r end
-    | When c body :: rest =>
-        if cond_holds c arg st
-        then match run_acts act body st with WOk st' => run_stmts act arg rest st' | r => r end
-        else run_stmts act arg rest st
+    | x :: rest => match run_stmt act arg x st with WOk st' => run_stmts act arg rest st' | r => r end
     end.
 
   Variable code : wcode.
